@@ -288,6 +288,15 @@ class Builtin2Mixin:
         self.hstore(st, r, 'awaited', none)
         self.hstore(st, r, 'result', none)
         st.ghost['OWN'] = z3.Store(st.ghost['OWN'], r_of(kd.term), TRUE)
+        snap = self.config.get('user_call_snapshot')
+        if snap:
+            # a frozen copy of a sequence-valued specification expression at the moment of the call (e.g. the process stack)
+            import ast as _ast
+            val = self.sev(st, _ast.parse(snap, mode='eval').body, {'__target_module__': self.cur_unit.module if self.cur_unit else None},
+                           self.unit_contract.module if self.unit_contract is not None else None)
+            o = self.alloc(st, self.cls('tuple'))
+            st.LS = z3.Store(st.LS, r_of(o.term), self.spec_seq(st, val))
+            self.hstore(st, r, 'snapshot', o.term)
         st.TR = z3.Concat(st.TR, z3.Unit(ev.term))
         return ev
 
